@@ -1,5 +1,6 @@
 import Spine.TeardownServe
 import Spine.TeardownServeHist
+import Spine.TeardownServeEnt
 /-!
 # C10 — "every other peer … continues to be served": a frame theorem over RESPONSES
 
@@ -174,6 +175,42 @@ example : (∀ r ∈ hist, r.okFor 1 = true) ∧
        [(2, .notify 7 ([1], 1) ([1], 1) 43), (2, .notify 7 ([1], 1) ([1], 2) 43)],
        [(2, .reply (some 6) 7 ([1], 1) ([1], 1) 43 (some 0))]] ∧
     ((reqRun 0 (world x0 w0) hist).map fun l => (l.filter fun o => o.1 = 1).length) = [0, 1, 1, 0] := by decide
+
+/-! ### the SAME device after an entity removal: all and only what refers to that ENTITY -/
+
+/-- Entity `ent` (not [0]) of connection `k` announced as removed: the datagrams connection `k` ITSELF sends afterwards from
+    its other entities (to a local feature, or to node management except the two reads that list the caller's own
+    subscriptions / bindings, which rightly shrink) produce exactly the outputs of before — minus the notifications to
+    client features of the removed entity, the only outputs that disappear. (`x.wf`: the context lists, for an entity, features
+    of that entity.) -/
+theorem c10s_entity_same_device_served (x : Ctx) (hx : x.wf) (F : Facts) (hF : F.ok = true) (s : St) (hs : Inv s) (k : Nat) (c : Conn)
+    (hk : forSki s k = some c) (ent : List Nat) (h0 : ent ≠ [0]) (hent : c.ents.contains ent = true)
+    (d : Dg) (hsrc : d.src.1 ≠ ent) (h4 : d.fn ≠ 904) (h5 : d.fn ≠ 905) :
+    (processCmd (world x (dropEntity F s k ent).1) k d).2.filter (fun o => !toEnt k ent o) =
+    (processCmd (world x s) k d).2.filter (fun o => !toEnt k ent o) :=
+  serve_cmd_frameE (world_dropEntity_frameE x hx F hF s hs k c hk ent h0 hent) d hsrc h4 h5
+
+theorem x0_wf : x0.wf := by
+  intro q e f hf
+  simp only [x0] at hf
+  split at hf
+  · rename_i he; simp at hf; rw [hf, he]
+  · simp at hf; rcases hf with rfl | rfl <;> rfl
+
+/-- connection 1 is subscribed to [2]/1 from its entities [1] and [1,1] and bound to it from [1,1]; connection 2 is subscribed too -/
+def w1 : St := run Facts.head { conns := conns0 }
+  [.entry false 1 1 [1] 1 [2] 1, .entry false 2 1 [1, 1] 1 [2] 1, .entry false 3 2 [1] 1 [2] 1, .entry true 4 1 [1, 1] 1 [2] 1]
+def wr1 : Dg := { src := ([1, 1], 1), dst := ([2], 1), ctr := some 8, ref := none, cls := .write, ack := true, fn := 7, val := 50 }
+
+/-- non-vacuity: after [1] of connection 1 is removed, connection 1's write from [1,1]/1 is still accepted and still notifies
+    its own [1,1]/1 and connection 2 — only the notification to the removed [1]/1 is gone -/
+example : x0.wf ∧
+    (processCmd (world x0 w1) 1 wr1).2 =
+      [(1, .notify 7 ([2], 1) ([1], 1) 50), (1, .notify 7 ([2], 1) ([1, 1], 1) 50), (2, .notify 7 ([2], 1) ([1], 1) 50),
+       (1, .result (some 8) 0 ([2], 1) ([1, 1], 1) (some 0))] ∧
+    (processCmd (world x0 (dropEntity Facts.head w1 1 [1]).1) 1 wr1).2 =
+      [(1, .notify 7 ([2], 1) ([1, 1], 1) 50), (2, .notify 7 ([2], 1) ([1], 1) 50), (1, .result (some 8) 0 ([2], 1) ([1, 1], 1) (some 0))] :=
+  ⟨x0_wf, by decide, by decide⟩
 
 /-- Sharpness: with the comparisons of the pinned commit (`RemoveBindingsForEntity` compared the entity address only,
     `Facts.pinned`, not `ok`) the removal of connection 1 takes connection 2's binding, and connection 2's write — accepted
